@@ -11,6 +11,48 @@ import (
 
 func init() {
 	vfHarnesses["VerifH_serveHTTP_params"] = VerifH_serveHTTP_params
+	vfHarnesses["VerifH_serveHTTP_intparam"] = VerifH_serveHTTP_intparam
+}
+
+// VerifH_serveHTTP_intparam (C07, C03): a path variable bound to an int32 field (including the
+// value 0, the field's default) wins over a competing value in the query string or the body.
+func VerifH_serveHTTP_intparam() {
+	in := schemaRoute()
+	out := newFakeMD("vf.Resp", strField("r"))
+	rule := vfHTTPRule("POST", "/n/{i}")
+	rule.Body = "*"
+	mux, srv, rec := vfMuxWith(rule, in, out)
+	d := vfByte()
+	vfAssume(d >= '0' && d <= '9')
+	want := vfConc(int(d - '0'))
+	rival := int32(1 + vfChoice(9))
+	query := ""
+	viaQuery := vfBool()
+	if viaQuery {
+		query = "i=" + string([]byte{byte('0' + rival)})
+	} else {
+		rec.bodyInts = map[string]int32{"i": rival}
+	}
+	body := []byte{1}
+	r := &http.Request{
+		Method: "POST", URL: &url.URL{Path: "/n/" + string([]byte{d}), RawQuery: query},
+		Header: http.Header{"Content-Type": []string{"application/x"}, "Accept": []string{"application/x"}},
+		Body:   vfNopCloser{&vfWholeReader{data: body}}, ContentLength: 1, ProtoMajor: 1, ProtoMinor: 1,
+	}
+	w := newFakeRW()
+	mux.ServeHTTP(w, r)
+	vfCheck(srv.calls == 1 && w.status == 200, "request not delivered")
+	got := srv.got[0]
+	v, ok := got.vals["i"]
+	vfCheck(ok && int(v.Int()) == want, "int32 path-bound field does not carry the value captured from the URL path")
+	if want == 0 {
+		vfCover("zero-capture")
+	}
+	if viaQuery {
+		vfCover("query-rival")
+	} else {
+		vfCover("body-rival")
+	}
 }
 
 type vfNopCloser struct{ io.Reader }
